@@ -668,9 +668,9 @@ func init() {
 			"html.quoted.other", "html.quoted.escaped", "xml.checked", "xml.escaped", "cdata.checked", "cdata.escaped", "cdata.declined"},
 		Streams: []fw.Stream{
 			{Name: "probes", Quick: len(c17Probes), Thorough: len(c17Probes), Run: c17RunProbes},
-			{Name: "whitespace", Quick: 300000, Thorough: 10000000, Run: c17RunWhitespace, MinNontrivial: 1000},
-			{Name: "entities", Quick: 600000, Thorough: 25000000, Run: c17RunEntities, MinNontrivial: 1000},
-			{Name: "attr", Quick: 150000, Thorough: 5000000, Run: c17RunAttr, MinNontrivial: 1000},
+			{Name: "whitespace", Quick: 300000, Thorough: 30000000, Run: c17RunWhitespace, MinNontrivial: 1000},
+			{Name: "entities", Quick: 600000, Thorough: 75000000, Run: c17RunEntities, MinNontrivial: 1000},
+			{Name: "attr", Quick: 150000, Thorough: 15000000, Run: c17RunAttr, MinNontrivial: 1000},
 		},
 	})
 }
